@@ -143,6 +143,13 @@ def replay(rec):
     if rec['call'] == 'reach':
         return (True, 'consecutive unseeded draws can never differ (no draw on the global generator?)')
     a, b = float(unj(inp['a'])), float(unj(inp['b']))
+    # clauses about the structure of the draw (not about parameter values) are replayed with non-degenerate parameters:
+    # with scale / variance 0 every draw equals the location and such a defect would be invisible
+    if any(k in rec.get('clause', '') for k in ('draw call', 'variates are drawn', 'depends on the', 'one-dimensional', 'fresh array', 'reproducible', 'affine')):
+        if kind == 'uniform':
+            a, b = (a, b) if b - a > 1e-6 else (0.25, 1.75)
+        elif b <= 0:
+            a, b = 0.75, 1.5
     seed = int(unj(inp['seed'])) % (2 ** 32)
     nn = max(n, 4)
     if kind == 'normal':
